@@ -1,6 +1,8 @@
 (* C20 - persistence (the part that is logic; byte formats, fresh interpreters and file-system faults are exercised by the
    correspondence check only). *)
-From InfOCF Require Import Core Tol Form Model Ocf ThmZocf Persist ThmPersist.
+From InfOCF Require Import Core Tol Form Model Ocf ThmZocf Persist ThmPersist PyLib TieImp.
+From InfOCFGen Require Import SrcImp.
+From Coq Require Import ZArith.
 
 Theorem C20_failed_or_successful_save_leaves_object_unchanged : forall o f, fst (save_ocf o f) = o.
 Proof. exact save_preserves_state. Qed.
@@ -17,6 +19,19 @@ Theorem C20_continued_computation_coincides : forall n P c1 c2 ops, cache_ok n P
   map snd (zrun n P c1 ops) = map snd (zrun n P c2 ops).
 Proof. exact reload_behaviour. Qed.
 Print Assumptions C20_continued_computation_coincides.
+
+(* SOURCE TIE.  save_impacts / load_impacts are GENERATED on every run from /repo's preocf.py (coq/gen/SrcImp.v; the save_meta calls, which
+   only touch the metadata dictionary, are left out).  load_impacts accepts exactly the vectors of the right length without a
+   negative entry and then holds the list handed over; what save_impacts returns from one object loads into another with the same
+   conditionals as the same vector. *)
+Theorem C20_source_load_impacts_exact : forall n (d:dict BinNums.Z cond) imp old,
+  py_load_impacts n d imp old = if impacts_ok d imp then Return (tt, imp) else Raise.
+Proof. exact tie_load_impacts. Qed.
+Print Assumptions C20_source_load_impacts_exact.
+Theorem C20_source_impacts_round_trip : forall n (d:dict BinNums.Z cond) imp old, impacts_ok d imp = true ->
+  exists saved, py_save_impacts n imp = Return saved /\ py_load_impacts n d saved old = Return (tt, imp).
+Proof. exact impacts_round_trip. Qed.
+Print Assumptions C20_source_impacts_round_trip.
 
 Example save_fault_example : fst (save_ocf {| handles := Some 7; pcache := [Some 1; None]; pmeta := 3 |} DumpFails) = {| handles := Some 7; pcache := [Some 1; None]; pmeta := 3 |}
   /\ snd (save_ocf {| handles := Some 7; pcache := [Some 1; None]; pmeta := 3 |} NoFault) = Some {| handles := None; pcache := [Some 1; None]; pmeta := 3 |}.
